@@ -6,8 +6,12 @@ loops unrolled, ...).  The two programs are equivalent.  Per rule:
   * discharged on the source as written, but the normal form yields a finding for a construct that the run on the source as
     written did NOT examine (no instance of that rule names it) -> the finding stands: the rule was vacuous there (typically
     the code it looks for sits in a helper); a finding for a construct that WAS examined and discharged as written is
-    a disagreement about the same obligation and is dropped (recorded in the evidence);
-  * a finding on both forms is reported (as seen on the source as written)."""
+    a disagreement about the same obligation and is dropped (recorded in the evidence) -- unless the offending statement comes from
+    a helper body spliced in by the normal form: then the run as written discharged the obligation without seeing that statement,
+    and the finding stands;
+  * findings on both forms: per construct, a finding as written whose construct the normal form examines and discharges gives way
+    (unrecognised shape), a finding of the normal form for a construct not examined or also failing as written is added; if the
+    two forms disagree on every construct, all findings of both are reported."""
 from __future__ import annotations
 import importlib, os
 from . import frontend, report
@@ -80,21 +84,51 @@ def decide(pid, repo=None, tier='quick', seed=0, only=None):
                 r2.desc += ' [normal form]'
                 ctx.rules[i] = r2
                 info['rules_decided_on_normal_form'].append(r.id)
+            elif r.findings and r2.findings:
+                # a finding on both forms.  Per construct: a finding as written for a construct that the normal form examines and
+                # discharges is an unrecognised shape (same argument as above) and gives way to what the normal form reports; a
+                # finding of the normal form for a construct not examined (or also failing) as written is added.  When the two forms
+                # disagree on every construct, everything is reported.
+                def discharged(rule):
+                    failing = {f['construct'] for f in rule.findings}
+                    return {x['construct'] for x in rule.instances} - failing
+                d1_, d2_ = discharged(r), discharged(r2)
+                k2 = {g['key'] for g in r2.findings}
+                k1 = {f['key'] for f in r.findings}
+                keep = [f for f in r.findings if f['key'] in known or f['key'] in k2 or f['construct'] not in d2_]
+                add = [g for g in r2.findings if g['key'] not in k1 and g['key'] not in known
+                       and (g['construct'] not in d1_ or g.get('origin'))]
+                if not any(f['key'] not in known for f in keep + add):
+                    keep, add = list(r.findings), [g for g in r2.findings if g['key'] not in k1]
+                dropped = [f['key'] for f in r.findings if f not in keep]
+                r.findings[:] = keep
+                for g in add:
+                    g = dict(g)
+                    g['what'] += '  [seen on the normal form]'
+                    r.findings.append(g)
+                    r.instances.append({'construct': g['construct'], 'fact': 'FAILED (normal form): ' + g['what'], 'where': g['where'], 'ok': False})
+                    info['findings_seen_only_on_normal_form'].append(g['key'])
+                if dropped:
+                    info.setdefault('findings_as_written_dropped_because_examined_and_discharged_on_normal_form', []).extend(dropped)
             continue
         # completion: findings that only the normal form can see (constructs this rule did not examine as written)
         examined = {x['construct'] for x in r.instances}
         for f in r2.findings:
             if f['key'] in known or any(g['key'] == f['key'] for g in r.findings):
                 continue
-            if f['construct'] in examined:
+            opaque = f.get('origin')      # the offending statement comes from the body of a helper that the run on the source as written could not see
+            if f['construct'] in examined and not opaque:
                 info['normal_form_findings_dropped_because_examined_and_discharged_as_written'].append(f['key'])
                 continue
             f = dict(f)
-            f['what'] += '  [seen on the normal form only: as written, the rule examines no instance of this construct]'
+            f['what'] += ('  [seen on the normal form only: as written, the fact sits behind the call of %s, which the rule does not look into]' % opaque
+                          if f['construct'] in examined else
+                          '  [seen on the normal form only: as written, the rule examines no instance of this construct]')
             r.findings.append(f)
             r.instances.append({'construct': f['construct'], 'fact': 'FAILED (normal form): ' + f['what'], 'where': f['where'], 'ok': False})
             info['findings_seen_only_on_normal_form'].append(f['key'])
     if info['rules_decided_on_normal_form'] or info['findings_seen_only_on_normal_form'] or \
+            info.get('findings_as_written_dropped_because_examined_and_discharged_on_normal_form') or \
             info['normal_form_findings_dropped_because_examined_and_discharged_as_written']:
         ctx.extra['normal_form'] = info
     return ctx
